@@ -92,8 +92,18 @@ def strat(draw, prop, tier):
         status = draw(st.sampled_from(['CLOSED', 'CLOSED', 'LOCKED', 'OPEN']))
         pre = [['edit', yy, x, 'F'], ['pose', yy, x, hd], ['edit', y, x, f'B(D:{status}:{colour})'], ['hold', f'K:{colour}' if 'Key' in space['types'] else '_'],
                [draw(st.sampled_from(['fstep', 'cstep'])), 'ACTUATE'], ['istep', 'ACTUATE'], ['istep', 'ACTUATE']]
-    return {'space': space, 'state': sd, 'chain': list(chain), 'seed': draw(gen.seed_s), 'ops': pre + draw(st.lists(op, min_size=5, max_size=16)),
-            'debug': draw(st.sampled_from([None, True, False, False]))}
+    debug = draw(st.sampled_from([None, True, False, False]))
+    if which == 2 and h >= 2 and 'Box' in space['types']:
+        # a box is looked at through a step whose result is dropped, its content is then replaced in place (an attribute of an object that
+        # is already in the world; boxes compare equal whatever they hold), and the same State object is stepped again
+        y = draw(st.integers(0, h - 1))
+        yy, hd = draw(st.sampled_from([(a, b) for a, b in ((y - 1, 'B'), (y + 1, 'F')) if 0 <= a < h]))
+        x = draw(st.integers(0, w - 1))
+        inner = draw(gen.obj_s(space, 1))
+        pre = [['edit', yy, x, 'F'], ['pose', yy, x, hd], ['edit', y, x, 'B(F)'], [draw(st.sampled_from(['peek', 'peek', 'cstep'])), 'TURN_LEFT' if draw(st.booleans()) else 'ACTUATE'],
+               ['pose', yy, x, hd], ['mutate', 0, inner, 0], [draw(st.sampled_from(['peek', 'fstep', 'cstep'])), 'ACTUATE']]
+        debug = draw(st.sampled_from([False, False, None]))
+    return {'space': space, 'state': sd, 'chain': list(chain), 'seed': draw(gen.seed_s), 'ops': pre + draw(st.lists(op, min_size=5, max_size=16)), 'debug': debug}
 
 
 def special_cells(d):
@@ -239,6 +249,8 @@ def oracle_for(prop):
                 if not sp:
                     continue
                 p = sp[op[1] % len(sp)]
+                if op[3] == 0 and M.front(d) in sp:
+                    p = M.front(d)                       # (the faced object, when it is one of them)
                 cur = M.cell(d, p)
                 real = s.grid[Position(*p)]
                 t = M.obj_type(cur)
@@ -291,6 +303,8 @@ def oracle_for(prop):
             cl.append('scripted:drawn_door_row')
         if len(case['ops']) > 5 and case['ops'][2][0] == 'edit' and str(case['ops'][2][3]).startswith('B(D:'):
             cl.append('scripted:boxed_door')
+        if len(case['ops']) > 6 and case['ops'][2][0] == 'edit' and case['ops'][2][3] == 'B(F)' and case['ops'][5][0] == 'mutate':
+            cl.append('scripted:box_content_replaced_between_steps')
         steps = [i for i, x in enumerate(kinds) if x in STEP_KINDS]
         edits = [i for i, x in enumerate(kinds) if x in ('edit', 'edit_special', 'pose', 'pose_special', 'hold', 'draw', 'mutate')]
         if any(e > steps[0] and e < steps[-1] for e in edits) if steps else False:
@@ -309,4 +323,4 @@ def make_check(prop, quick=250, thorough=1200):
     return Check('edited_histories', oracle_for(prop), strategy=lambda tier: strat(prop, tier), examples={'quick': quick, 'thorough': thorough}, shards={'quick': 4, 'thorough': 16},
                  rule='one world x 5-16 ops: functional step, look-ahead (result dropped), in-place transition, copying transition, interleaved with user edits through the public '
                       'API (grid[pos] = obj, design.draw_line_*, box content / door status / colour of an object in place, agent pose, held item; cells addressed by Position or by tuple) and with looks at the world through occluding observation functions (view fitted to the grid when the agent faces forward), debug checks on or off: every result inside the model outcome set (projection of this property); states left behind never change',
-                 required=['edit_between_steps', 'peek_change_step', 'left_behind_then_inplace', 'op:draw', 'op:edit_special', 'op:pose_special', 'op:mutate', 'op:observe', 'debug:False', 'debug:True'] + (['scripted:drawn_door_row', 'scripted:boxed_door'] if prop in ('C09', 'C10') else []))
+                 required=['edit_between_steps', 'peek_change_step', 'left_behind_then_inplace', 'op:draw', 'op:edit_special', 'op:pose_special', 'op:mutate', 'op:observe', 'debug:False', 'debug:True'] + (['scripted:drawn_door_row', 'scripted:boxed_door', 'scripted:box_content_replaced_between_steps'] if prop in ('C09', 'C10') else []))
